@@ -135,7 +135,7 @@ def run_check(prop, harness_name, tier, seed=0, budget_s=None, mutant=None, jobs
     props = [prop]
     timeout_ms = 10000 if tier == "quick" else 60000
     if budget_s is None:
-        budget_s = getattr(mod, "BUDGET", {}).get(tier, 900 if tier == "quick" else 3600)
+        budget_s = getattr(mod, "BUDGET", {}).get(tier, 900 if tier == "quick" else 1500)
     deadline = t_start + budget_s
     chunk = getattr(mod, "CHUNK", 120)
     scratch = tempfile.mkdtemp(prefix="verif-symx-")
